@@ -9,7 +9,7 @@ export DBUS_SESSION_BUS_ADDRESS=unix:path=/nonexistent
 setup: coq harness
 
 coq:
-	cd coq && coq_makefile -f _CoqProject -o Makefile >/dev/null && timeout 1500 $(MAKE) -j16
+	python3 -c "import vlib,sys; ok,out=vlib.build_coq(); print(out[-3000:]); sys.exit(0 if ok else 1)"
 
 harness:
 	python3 -c "import vlib,sys; ok,out,_=vlib.build_harness(); print(out[-2000:]); sys.exit(0 if ok else 1)"
